@@ -169,6 +169,7 @@ func runWorker(oracle string) {
 			case "diff":
 				v = diffCase(&c, lean)
 			default:
+				setTolerances(c.Query)
 				v = runOracle(oracle, &c, lean)
 			}
 			b, _ := json.Marshal(v)
